@@ -56,8 +56,32 @@ Whole(c) == IF c.k = "Select" /\ c.ch[2].k = "Meth"
             ELSE Tm("Select", "e", 0, <<DSn, Cnt(c)>>)                  \* how many survive
 SiblingBases == {Whole(Chain(k1, k2, how, ch)) : k1 \in Kinds, k2 \in Kinds, how \in Hows, ch \in Chains}
 
+(* Fourth family: STRAIGHT nests three lambdas deep inside a chained step,
+       jets.Where(lambda j: j.trks().Where(lambda t: j.vals().Where(lambda v: v > t.pt()).Count() > 0).Count() > 0).Where(lambda p: ..)
+   The hostile renamings then give the innermost parameter the name of its GRANDPARENT (j .. t .. j), which is sound
+   whenever the innermost body does not look at the grandparent; a renamer that only remembers the directly enclosing
+   lambda, together with the Where-of-Where fusion of the dependency, captures it.                                     *)
+In3(j, t, v, kind) ==
+  CASE kind = "parent" -> Tm("Where", v, 0, <<Mt("vals", Vr(j)), Gt(Vr(v), Mt("pt", Vr(t)))>>)
+    [] kind = "const"  -> Tm("Where", v, 0, <<Mt("vals", Vr(j)), Gt(Vr(v), CIi(0))>>)
+    [] kind = "grand"  -> Tm("Where", v, 0, <<Mt("vals", Vr(j)), Gt(Vr(v), Mt("pt", Vr(j)))>>)
+    [] kind = "select" -> Tm("Select", v, 0, <<Mt("vals", Vr(j)), Tm("Bin", "+", 0, <<Vr(v), Mt("pt", Vr(t))>>)>>)
+Kinds3 == {"parent", "const", "grand", "select"}
+Mid3(j, t, v, kind, mk) ==
+  CASE mk = "where"  -> Tm("Where", t, 0, <<Mt("trks", Vr(j)), Gt(Cnt(In3(j, t, v, kind)), CIi(0))>>)
+    [] mk = "select" -> Tm("Select", t, 0, <<Mt("trks", Vr(j)), Cnt(In3(j, t, v, kind))>>)
+Pred3(j, kind, mk) == Gt(Cnt(Mid3(j, "t", "v", kind, mk)), CIi(0))
+Chain3(kind, mk, ch) ==
+  CASE ch = "ww"  -> Tm("Where", "p", 0, <<Tm("Where", "j", 0, <<JetsOf, Pred3("j", kind, mk)>>), Gt(Mt("pt", Vr("p")), CIi(0))>>)
+    [] ch = "ws"  -> Tm("Select", "p", 0, <<Tm("Where", "j", 0, <<JetsOf, Pred3("j", kind, mk)>>), Mt("pt", Vr("p"))>>)
+    [] ch = "w"   -> Tm("Where", "j", 0, <<JetsOf, Pred3("j", kind, mk)>>)
+    [] ch = "www" -> Tm("Where", "q", 0, <<Tm("Where", "p", 0, <<Tm("Where", "j", 0, <<JetsOf, Pred3("j", kind, mk)>>),
+                                                                  Pred3("p", kind, mk)>>), Gt(Mt("pt", Vr("q")), CIi(0))>>)
+Nest3Bases == {Whole(Chain3(kind, mk, ch)) : kind \in Kinds3, mk \in {"where", "select"}, ch \in {"ww", "ws", "w", "www"}}
+
 VARIABLE c
-SInit == c \in SiblingBases /\ toks = <<>> /\ agenda = <<>>
+SInit == c \in SiblingBases \cup Nest3Bases /\ toks = <<>> /\ agenda = <<>>
 SNext == FALSE /\ c' = c /\ UNCHANGED gvars
-ExportSiblings == PrintT(<<"CASE", ToJson([q |-> c, support |-> Support(c), variants |-> SetToSeq(VariantRecs(c))])>>)
+ExportSiblings == PrintT(<<"CASE", ToJson([q |-> c, support |-> Support(c), fam |-> IF c \in Nest3Bases THEN "nest3" ELSE "siblings",
+                                            variants |-> SetToSeq(VariantRecs(c))])>>)
 =============================================================================
